@@ -387,6 +387,19 @@ where
             config,
         )
     );
+    #[cfg(feature = "verif_hooks")]
+    let quotient_polys = {
+        let mut quotient_polys = quotient_polys;
+        if let (Some((index, delta)), Some(polys)) = (
+            crate::verif_hooks::knobs::quotient_perturb(),
+            quotient_polys.as_mut(),
+        ) {
+            if let Some(c) = polys.get_mut(index).and_then(|q| q.coeffs.get_mut(0)) {
+                *c += F::from_canonical_u64(delta);
+            }
+        }
+        quotient_polys
+    };
     let (quotient_commitment, quotient_polys_cap) = if let Some(quotient_polys) = quotient_polys {
         let all_quotient_chunks = timed!(
             timing,
